@@ -45,6 +45,12 @@ func c08Legs(tier, o string) []pairLeg {
 		a, ok := v.([]interface{})
 		return ok && len(a) >= 9 && len(a) <= 18 && ref.Nodes(v) <= 20
 	}))
+	// bags of 19..75 scalars (duplicates included), complete triples over hash-alias members
+	add("large-bags", Large().Filter(func(v V) bool {
+		a, ok := v.([]interface{})
+		return ok && len(a) >= 33 && len(a) <= 75 && ref.Nodes(v) == len(a)+1
+	}))
+	add("Ualias", AliasArrays())
 	if thorough {
 		add("A3x6", Arr(3, "6"))
 		add("A4x6", thin(Arr(4, "6"), 400))
@@ -60,6 +66,49 @@ func c08Legs(tier, o string) []pairLeg {
 		add("U3perm", thin(noVoid(UPerm(3)), 250))
 	}
 	return legs
+}
+
+// AliasArrays: arrays (length <= 2) over members whose content hashes coincide (string bytes == IEEE bytes of a number).
+func AliasArrays() *TextSet {
+	return memoize("alias-arrays", func() *TextSet {
+		fA, _ := floatWithLEBytes([8]byte{'A', 'A', 'A', 'A', 'A', 'A', 'A', 'A'})
+		alpha := []V{fA, "AAAAAAAA", 0.0, "\x00\x00\x00\x00\x00\x00\x00\x00", 1.0}
+		return NewTextSet(gen.Arrays(2, alpha))
+	})
+}
+
+// bagTargets: a, b, a reversed, and per distinct member of a: one more copy, one copy fewer, replaced by 1.
+func bagTargets(a, b []interface{}) []string {
+	seen := map[string]bool{}
+	var out []string
+	push := func(v []interface{}) {
+		t := ref.JSON(v)
+		if !seen[t] {
+			seen[t] = true
+			out = append(out, t)
+		}
+	}
+	push(a)
+	push(b)
+	rev := make([]interface{}, len(a))
+	for i := range a {
+		rev[len(a)-1-i] = a[i]
+	}
+	push(rev)
+	member := map[string]bool{}
+	for i, m := range a {
+		k := ref.JSON(m)
+		if member[k] {
+			continue
+		}
+		member[k] = true
+		push(append(append([]interface{}{}, a...), m))
+		push(append(append([]interface{}{}, a[:i]...), a[i+1:]...))
+		r := append([]interface{}{}, a...)
+		r[i] = 1.0
+		push(r)
+	}
+	return out
 }
 
 var c08EditAlpha = []V{1.0, 2.0, nil, map[string]interface{}{"id": 1.0, "t": "x", "v": 1.0}, map[string]interface{}{"id": 9.0, "t": "x"}}
@@ -124,7 +173,7 @@ func init() {
 			return []string{"accept", "reject: set member absent", "reject: multiset member absent", "reject: wrong container kind: set hunk on a non-array", "reject: no member with these keys"}
 		},
 		Assume: []string{"hunk semantics = Appendix A of DESIGN.md", "keyed members: exactly one member object agrees on all listed keys, otherwise no verdict", "whole-array replacement hunks whose outcome depends on how the removed array is compared take no verdict"},
-		Budget: budget(5*time.Minute, 45*time.Minute),
+		Budget: budget(8*time.Minute, 45*time.Minute),
 	})
 }
 
@@ -151,7 +200,14 @@ func enumC08(tier string, e *engine.Emitter) {
 					if tier == "thorough" && len(at) <= 7 {
 						dev = 2
 					}
-					targets := c08Targets(l.A.Vals[i], l.B.Vals[j], dev)
+					var targets []string
+					if l.Name[0] == 'U' && l.Name != "U3perm" && l.Name != "U4perm" {
+						targets = l.A.Texts // complete triples
+					} else if l.Name == "large-bags" {
+						targets = bagTargets(l.A.Vals[i].([]interface{}), l.B.Vals[j].([]interface{}))
+					} else {
+						targets = c08Targets(l.A.Vals[i], l.B.Vals[j], dev)
+					}
 					masks := []uint64{(1 << uint(h)) - 1}
 					if h > 1 && h <= 16 {
 						for k := 0; k < h; k++ {
